@@ -152,6 +152,40 @@ theorem wrap_token_grants_nothing_else (path op : String) (h : wrapPolicyAllows 
     (path = "cubbyhole/response" ∧ (op = "read" ∨ op = "create")) ∨ (path = "sys/wrapping/unwrap" ∧ op = "update") := by
   simpa [wrapPolicyAllows] using h
 
+/-- Lookup reports the path that created the wrapped response: after ANY history of rewraps (any number of
+generations, first- or third-party) of a response that was wrapped for a request on `path` with TTL `ttl`, whenever
+a live token of the chain exists, `sys/wrapping/lookup` on it reports `creation_path = path` and `creation_ttl =
+ttl`, and so did the `wrap_info` of the response that handed that token out — although the token's own `te.Path`
+is `sys/wrapping/rewrap` from the second generation on. -/
+theorem lookup_reports_creation_path (path : String) (hp : path ≠ rewrapPath) (ttl : Nat) (hist : List Bool)
+    (tok : WToken) (h : rewrapHistory hist (some (wrapFirst path ttl)) = some tok) :
+    lookupInfo tok = { path := path, ttl := ttl } ∧ tok.handed = { path := path, ttl := ttl } := by
+  have key : ∀ (hist : List Bool) (t0 : WToken), t0.stored = { path := path, ttl := ttl } →
+      t0.handed = { path := path, ttl := ttl } → rewrapHistory hist (some t0) = some tok →
+      lookupInfo tok = { path := path, ttl := ttl } ∧ tok.handed = { path := path, ttl := ttl } := by
+    intro hist
+    induction hist with
+    | nil =>
+      intro t0 h1 h2 h; simp [rewrapHistory] at h; subst h; exact ⟨h1, h2⟩
+    | cons b rest ih =>
+      intro t0 h1 h2 h
+      cases b with
+      | true =>
+        simp only [rewrapHistory] at h
+        refine ih (rewrapTok t0) ?_ ?_ h <;> simp [rewrapTok, wrapIn, h1]
+      | false =>
+        simp only [rewrapHistory] at h
+        have : ∀ l, rewrapHistory l none = none := by
+          intro l; induction l with
+          | nil => rfl
+          | cons _ _ ih => simpa [rewrapHistory] using ih
+        rw [this] at h; cases h
+  exact key hist (wrapFirst path ttl) (by simp [wrapFirst, wrapIn, hp]) (by simp [wrapFirst, wrapIn, hp]) h
+
+/-- non-vacuity: three generations; the third token's own path is the rewrap path, its record still names the origin -/
+example : (rewrapHistory [true, true] (some (wrapFirst "rec/data/a" 3600))).map (fun t => (t.tePath, lookupInfo t))
+    = some ("sys/wrapping/rewrap", { path := "rec/data/a", ttl := 3600 }) := by decide
+
 /-- non-vacuity: a first-party and a third-party unwrap race; one gets the payload, the other fails, and the
 worker removes token and payload -/
 example : let s := run [1, 1, 1, 1, 0, 0, 0, 0, 0, 0, 0, 0, 0, 0, 1, 1, 1, 2, 2] (wrapInit [.unwrap1, .unwrap3])
